@@ -196,6 +196,8 @@ macro_rules! common { ($T:ident) => {
         if self.try_reserve(n).is_ok() && self.capacity() < l + n { return Err(format!("after try_reserve({}) = Ok capacity() = {} < len {} + {}", n, self.capacity(), l, n)); }
         self.reserve_exact(n / 2 + 1); if self.capacity() < l + n / 2 + 1 { return Err(format!("after reserve_exact({}) capacity() = {} < len {} + {}", n / 2 + 1, self.capacity(), l, n / 2 + 1)); }
         if self.try_reserve_exact(n).is_ok() && self.capacity() < l + n { return Err(format!("after try_reserve_exact({}) = Ok capacity() = {} < len {} + {}", n, self.capacity(), l, n)); }
+        { let spare = self.capacity() - l; let want = spare + 3; self.reserve_exact(want); if self.capacity() < l + want { return Err(format!("after reserve_exact({}) with {} spare: capacity() = {} < len {} + {}", want, spare, self.capacity(), l, want)); }
+          let spare = self.capacity() - l; let want = spare + 2; if self.try_reserve_exact(want).is_ok() && self.capacity() < l + want { return Err(format!("after try_reserve_exact({}) = Ok with {} spare: capacity() = {} < len {} + {}", want, spare, self.capacity(), l, want)); } }
         if self.try_reserve(usize::MAX / 2).is_ok() { return Err("try_reserve(usize::MAX/2) returned Ok".into()); }
         for d in [0usize, 1, n, l, l + 1] { let amount = usize::MAX - d;
             if self.try_reserve(amount).is_ok() && amount > 1 << 60 { return Err(format!("try_reserve(usize::MAX - {}) returned Ok", d)); }
@@ -239,7 +241,11 @@ impl Q for DoublePriorityQueue<It, Pr> {
         hint_ok(n.saturating_sub(used), catch_unwind(AssertUnwindSafe(|| it.size_hint()))) }
     fn sorted_iter_lens(self, k: usize) -> Result<(), String> { let n = DoublePriorityQueue::len(&self); let mut it = self.into_sorted_iter(); let mut left = n;
         for j in 0..=k { if it.len() != left || it.size_hint() != (left, Some(left)) { return Err(format!("into_sorted_iter: len {} size_hint {:?} with {} elements left", it.len(), it.size_hint(), left)); }
-            let x = if j % 2 == 0 { it.next() } else { it.next_back() }; if x.is_some() { left -= 1; } } Ok(()) }
+            let x = if j % 2 == 0 { it.next() } else { it.next_back() }; if x.is_some() { left -= 1; } }
+        if k % 2 == 0 { let far = it.nth(left + k); if far.is_some() || it.len() != 0 || it.next().is_some() || it.next_back().is_some() {
+            return Err(format!("into_sorted_iter: after nth({}) with {} elements left: len {} (nth past the end must exhaust the iterator)", left + k, left, it.len())); } }
+        else if left > 0 { let s = it.nth(0); if s.is_none() || it.len() != left - 1 { return Err(format!("into_sorted_iter: nth(0) with {} elements left gives {:?} elements afterwards", left, it.len())); } }
+        Ok(()) }
     fn convert(self) -> Self { let d: PriorityQueue<It, Pr> = self.into(); d.into() }
 }
 
@@ -380,7 +386,11 @@ fn step<T: Q>(q: &mut T, m: &mut Model, r: &mut Rng, log: &mut Vec<String>) -> R
             ck!(ps.windows(2).all(|w| w[0] >= w[1]), "C06", "sorted vec is not in non-increasing order: {:?}", ps);
             if let Err(e) = q.adaptors(r.below(7) as usize) { return Err(Fail { props: "C13,C16".into(), what: e }); }
             if let Err(e) = c.clone().sorted_iter_lens(r.below(6) as usize) { return Err(Fail { props: "C13,C06".into(), what: e }); }
-            match q.roundtrip() { Ok(b) => { ck!(b.same(q), "C15", "serde round trip is not equal"); observe(&b, m).map_err(|f| Fail { props: "C15".into(), what: format!("after serde round trip: {}", f.what) })?; } Err(e) => return Err(Fail { props: "C15".into(), what: e }) }
+            match q.roundtrip() { Ok(b) => { ck!(b.same(q), "C15", "serde round trip is not equal"); observe(&b, m).map_err(|f| Fail { props: "C15".into(), what: format!("after serde round trip: {}", f.what) })?;
+                    // the deserialized queue is a working queue: demote its maximum, the next one must surface
+                    if m.len() >= 2 { let mut b2 = b.clone(); let mut m2 = m.clone(); let (&top, _) = m2.iter().max_by_key(|(_, v)| v.1).unwrap(); let low = m2.values().map(|x| x.1).min().unwrap() - 1;
+                        b2.change(top, low); m2.get_mut(&top).unwrap().1 = low;
+                        observe(&b2, &m2).and_then(|_| drain_check(b2, &m2, false)).map_err(|f| Fail { props: "C15".into(), what: format!("after serde round trip and change_priority of the maximum: {}", f.what) })?; } } Err(e) => return Err(Fail { props: "C15".into(), what: e }) }
             { // a serialized sequence that repeats items (adjacent and not): no panic, a consistent queue over the distinct items
                 let n = r.below(14) as usize; let mut v: Vec<(It, i32)> = vec![];
                 for _ in 0..n { let i = if !v.is_empty() && r.below(3) == 0 { v[v.len() - 1].0.id } else { r.below(9) as u16 }; v.push((It { id: i, tag: 5, own: Box::new(0) }, r.below(9) as i32)); }
